@@ -26,10 +26,35 @@ def site(fi, node):
 PARAM_AXIS = {'helpers.surface_deriv_cpts': {'rs': 0, 'ss': 1}}
 
 
+MODEL = None          # set by sa.run: lets scopes resolve the per-position direction tags of tuple-returning callees
+_RET_CACHE = {}
+
+
+def ret_tags_of(mod, name, depth=0):
+    """direction tags of the elements of the tuple a module-level function returns (e.g. compute_params_surface -> (u, v))"""
+    if MODEL is None or depth > 2:
+        return None
+    fi = MODEL.lookup_modfunc(mod, name) or MODEL.lookup_modfunc('fitting', name) or MODEL.lookup_modfunc('helpers', name)
+    if fi is None:
+        return None
+    if fi.key in _RET_CACHE:
+        return _RET_CACHE[fi.key]
+    _RET_CACHE[fi.key] = None
+    rets = [r for r in walk_no_nested(fi.node) if isinstance(r, ast.Return) and isinstance(r.value, ast.Tuple)]
+    if not rets:
+        return None
+    sc = scope_of(fi)
+    out = [sc.int_tags(e, rets[-1]) for e in rets[-1].value.elts]
+    _RET_CACHE[fi.key] = out if any(out) else None
+    return _RET_CACHE[fi.key]
+
+
 def scope_of(fi, cache={}):
     k = id(fi.node)
     if k not in cache:
-        cache[k] = AxisScope(fi.node, param_axis=PARAM_AXIS.get(fi.key))
+        sc = AxisScope(fi.node, param_axis=PARAM_AXIS.get(fi.key))
+        sc.ret_tag_source = lambda name, _mod=fi.mod: ret_tags_of(_mod, name)
+        cache[k] = sc
     return cache[k]
 
 
